@@ -269,3 +269,9 @@ TEXT["C16"]["level"] += ("  CONCRETE TRANSPORT (C16b): for the real curve points
 _wk_note = ("Abstract theorems: groups of exponent r with a bilinear map as explicit hypotheses (never axioms).  Concrete theorems: only HBilinearFull / HNonDegenerate (bilinearity and non-degeneracy of the textbook optimal-ate function on the r-torsion - classical, not provable with the libraries present) and membership of the parameters in the groups remain hypotheses.  "
             "Models are hand-written mirrors of api.cpp's cursor loops, tied by the stateful correspondence (every group element of every produced object compared with the canonical value).")
 for _p in ("C11", "C12", "C13", "C14"): TEXT[_p]["note"] = _wk_note
+TEXT["C03"]["level"] = TEXT["C03"]["level"].replace(
+ "(c) Multiplication, squaring, Montgomery reduction (baseline and BMI2/ADX families): same model, tied by the judge - for every asm op line the interpreter runs the regenerated program on the same operands and alias pattern and must reproduce the real routine's limbs and flag exactly (boundary operands: top-word ties, carry chains, T = p*R-1, top bits set).",
+ "(c) (C03b) bigint_768_multiply, bigint_768_square and fpbase_384_montgomery_reduce, BOTH families (baseline mul/adc rows; BMI2/ADX mulx/adcx/adox dual carry chains): for every entry state, res = a*b, res = a*a, and res < p with res*2^384 = T (mod p) for T < p*2^384, 2p <= 2^384, inv*p = -1 mod 2^64 - all four endings of the final compare - hence the SAME limbs as the portable mulLoop/sqrLoop/montReduce and as each other (families_agree), with frame conditions.  "
+ "(d) For every asm op line the judge also runs the regenerated programs on the same operands and alias pattern and must reproduce the real routine's limbs and flag exactly (boundary operands: top-word ties, carry chains, T = p*R-1, top bits set).")
+TEXT["C03"]["note"] = ("AArch64 and ARMv6-M sources: see DESIGN.md 8.2 for what part of them has a model.  Trusted: the machine model's instruction semantics (validated against the host CPU on every run through the judge), asm2lean (cross-checked against GNU as/objdump), Lean kernel.  "
+                       "Side conditions of the assembly theorems are the C++ contract's: operands < p for the modular routines, res disjoint from p, multiply/square output disjoint from the inputs (__restrict), 2p <= 2^384.")
